@@ -47,6 +47,10 @@ var checks = map[string]checkFn{}
 
 func main() {
 	log.SetOutput(io.Discard) // rend logs through the global logger
+	realStdout := os.Stdout
+	if devnull, err := os.OpenFile(os.DevNull, os.O_WRONLY, 0); err == nil {
+		os.Stdout = devnull // rend prints diagnostics (e.g. bad-magic headers) with fmt.Printf
+	}
 	prop := flag.String("prop", "", "property id (C01 ...)")
 	tier := flag.String("tier", "quick", "quick | thorough")
 	seed := flag.Int64("seed", 1, "PRNG seed")
@@ -77,8 +81,8 @@ func main() {
 	rep.WallS = time.Since(start).Seconds()
 	data, _ := json.MarshalIndent(rep, "", " ")
 	if *out == "" {
-		os.Stdout.Write(data)
-		fmt.Println()
+		realStdout.Write(data)
+		realStdout.Write([]byte("\n"))
 	} else {
 		must(os.WriteFile(*out, data, 0o644))
 	}
